@@ -39,9 +39,7 @@ Record wf_descs (ts : list token) (ds : list fdesc) : Prop := mkWfDescs
   { wd_shape : Forall (fun d => (fd_start d <= fd_name d < fd_hend d)%nat /\ (fd_hend d <= fd_open d)%nat /\
                                 matched ts (fd_open d) (fd_close d) /\ (fd_close d < length ts)%nat /\
                                 (* no brace between the header and the body's opening brace *)
-                                (forall k, (fd_hend d <= k < fd_open d)%nat -> sym_at ts k lbrace = false /\ sym_at ts k rbrace = false) /\
-                                (* nothing opens right after the body (no abutting block) *)
-                                sym_at ts (S (fd_close d)) lbrace = false) ds;
+                                (forall k, (fd_hend d <= k < fd_open d)%nat -> sym_at ts k lbrace = false /\ sym_at ts k rbrace = false)) ds;
     wd_sorted : forall i j di dj, (i < j)%nat -> nth_error ds i = Some di -> nth_error ds j = Some dj ->
                                   (fd_start di < fd_start dj)%nat /\ (nested_in dj di \/ after dj di) }.
 
